@@ -36,6 +36,9 @@ CHECKS = {
  "C07": ("fault_enumeration", "exhaustive enumeration of all inputs within a deviation bound of reference-encoded frames (plus all very short inputs and all type/length headers), each executed on the real Parse under a deterministic step budget and an allocation measurement",
          "Seeds: reference encodings (engine/wire) of one message per distinct (kind, element-kind set) of the switch- and controller-originated corpora (about 2500 seeds quick). Bound 1, complete: every truncation (raw, and with the header length rewritten to the truncated size), every byte x all 256 values for seeds <= 256 bytes (boundary values above), every length/count/type/constant field of the reference field map x a boundary alphabet (0..10, powers of two, correct+-1/2/4/8, bytes-remaining+-1/2/4/8, 0x3fff, 0x4000, 0x7fff, 0x8000, max-7, max-1, max), trailing bytes; seed-independent: every input of length 0..2, all 256 type codes x 20 boundary lengths x 4 versions x 0..8 filler bytes, all types with 8..64-byte bodies. Thorough adds bound 2 (structural x structural, structural x truncation). About 5*10^7 executions quick on 16 worker processes. Outcome must be message-or-error; panic, (nil,nil), more than 64*len+4096 instrumented steps, more than 64*len+256 KiB allocated, or death of the worker process is a violation attributed to the exact input.",
          "Instrumentation R1 (a tick at every function entry and loop body of the five packages) is regenerated from the working tree on every run; a budget overrun is raised again every 256 steps so that the library's own recover() cannot swallow it. Inputs more than two deviations away from every seed are not covered: the claim is 'no input in these sets'.", "4/C07"),
+ "C08": ("fault_enumeration", "exhaustive enumeration of all inputs within a deviation bound of reference-encoded packets, each executed on the real decoder under a deterministic step budget and an allocation measurement",
+         "One entry point per decoder (Ethernet, VLAN, ARP, IPv4, IPv6, IPv6 option, hop-by-hop, routing, fragment, ICMP, TCP, UDP, IGMPv1/2, IGMPv3 query, group record, membership report, DHCP.Write, DHCPParseOptions, the three LLDP TLVs, LLDP.Write) plus Parse of a packet-in carrying each frame. Seeds: reference encodings (engine/pkt) of the packet corpus (all payload kinds, 16 extension-header chains x 5 final headers, option/source/record counts 0..3, DHCP option lists <= 3). Bound 1, complete: every truncation, every byte x all 256 values (all headers are short, so IHL/version, HEL, option length, hardware/protocol length, aux length are covered over their whole range), every length/count/type field x boundary alphabet incl. 16383/16384/32767/32768/65535, trailing bytes, every input of length 0..2. Thorough: bound 2 over length-like fields and truncations, jumbo seeds. Violations: panic, more than 64*len+4096 steps, more than 64*len+256 KiB allocated, process death.",
+         "Seeds do not depend on the library's encoders. The step budget is counted by instrumentation regenerated from the working tree (R1).", "4/C08"),
 }
 ORDER = ["C%02d" % i for i in range(1, 20)]
 NA = {}
